@@ -130,8 +130,51 @@ class Ctx:
             n = sentinel.disarm()
             self.counters['cardutil_lines_executed'] += n
 
+    # -- second, independent workloads for the same oracles ---------------------------------------------------
+    def install_online_monitors(self, families):
+        """Online shadow-model monitors (vmon/hooks.py) watch everything the workload makes cardutil do."""
+        from . import hooks
+
+        def report(family, mech, detail):
+            self.violation('%s[%s]' % (mech, family), {'online_monitor': family, 'detail': detail})
+        hooks.install(report, families)
+        self._online = hooks.counters
+
+    def repo_tests_under_monitors(self, families):
+        """Run the repository's own test suite with the online monitors of `families` installed (pytest plugin)."""
+        import subprocess
+        import tempfile
+        fd, path = tempfile.mkstemp(prefix='vmon-pytest-', suffix='.json')
+        os.close(fd)
+        e = dict(os.environ, PYTHONPATH=env.VERIF_DIR, VMON_REPORT=path, VMON_MONITORS=','.join(families), VERIF_REPO=env.REPO,
+                 PYTHONDONTWRITEBYTECODE='1')
+        try:
+            p = subprocess.run([env.PYTHON, '-B', '-m', 'pytest', '-q', '-x', '-p', 'no:cacheprovider', '-p', 'vmon.pytest_plugin',
+                                '--timeout=900'], cwd=env.REPO, env=e, capture_output=True, text=True, timeout=1200)
+            with open(path) as f:
+                rep = json.load(f)
+        except Exception as ex:  # noqa
+            self.count('repository test suite under monitors could not run: %s' % type(ex).__name__)
+            return
+        finally:
+            try:
+                os.unlink(path)
+            except OSError:
+                pass
+        self.count('repository tests run under online monitors')
+        if rep.get('pytest_exitstatus') not in (0,):
+            self.count('repository tests failing under monitors (exit %s)' % rep.get('pytest_exitstatus'))
+        for k, v in rep.get('counters', {}).items():
+            if k.split(':')[0] in families:
+                self.counters['repo tests: ' + k] += v
+        for v in rep.get('violations', []):
+            if v['family'] in families:
+                self.violation('%s[repo tests]' % v['mechanism'], {'online_monitor': v['family'], 'test': v['test'], 'detail': v['detail']})
+
     # -- serialise ------------------------------------------------------------------------------------------
     def dump(self, wall):
+        for k, v in (getattr(self, '_online', None) or {}).items():
+            self.counters['online: ' + k] = v
         return {
             'shard': self.shard,
             'evals': self.evals,
@@ -159,6 +202,8 @@ def run_shard(mod, ctx, time_cap=None):
     prep = getattr(mod, 'prepare', None)
     if prep:
         prep(ctx)
+    if getattr(ctx, 'online_wanted', None):
+        ctx.install_online_monitors(ctx.online_wanted)
     sentinel.install(per_thread=getattr(mod, 'PER_THREAD_STEPS', False))
     if ctx.shard == 0:
         mod.canaries(ctx)
